@@ -82,8 +82,14 @@ def nontrivial(cfg, op, o):
 
 
 def explore(tier, seed, model_ok=True, focus=False):
-    return explore_staking("C12", tier, seed, monitor, nontrivial, RULE, model_ok, focus)
+    ex = explore_staking("C12", tier, seed, monitor, nontrivial, RULE, model_ok, focus)
+    # farm-staking as ONE closed model (Model/StakingFull.v): balance identity with the weekly pools itemised
+    from props import staking_full_common as sfc
+    return sfc.merge_exploration(ex, sfc.explore_staking_full("C12", tier, seed, sfc.monitors_for_c12, sfc.nontrivial_all, sfc.RULE, model_ok, focus, scale=0.5))
 
 
 def replay(data):
+    if data.get("replay", {}).get("system") == "staking-full":
+        from props import staking_full_common as sfc
+        return sfc.replay_staking_full(data, sfc.monitors_for_c12)
     return replay_staking(data, monitor)
